@@ -96,9 +96,19 @@ pub fn run(ctx: &Ctx) -> i32 {
         st.count("cluster_repeat_cases");
         check_case(ctx, st, &det[i % det.len()], Settings::new(det_settings[i / det.len()]));
     });
+    // literal text resembling class tokens next to members of that class
+    {
+        let look = gen::token_lookalike_cases();
+        let extra = [0, REP, REP | ESC, REP | VERB, REP | CAP, CI];
+        par_for(&ctx.run, look.len() * extra.len(), |i, st| {
+            let (tcs, f) = &look[i % look.len()];
+            st.count("token_lookalike_cases");
+            check_case(ctx, st, tcs, Settings::new(f | extra[i / look.len()]));
+        });
+    }
     // random
     let n = if ctx.thorough { 150_000 } else { 5_000 };
-    let names = ["classes", "ws", "case", "graph", "mixed", "astral", "meta", "clusters"];
+    let names = ["classes", "ws", "case", "graph", "mixed", "astral", "meta", "clusters", "tokens"];
     let alphabets: Vec<(String, Vec<String>)> = names.iter().map(|a| (a.to_string(), gen::alphabet(a))).collect();
     par_for(&ctx.run, n, |i, st| {
         let mut rng = Rng::new(seed, 0x30_0000 + i as u64);
